@@ -213,7 +213,7 @@ def null_mean_sites(idx):
     recomputes it (agrapa's t_adj, and any `m`/`t_adj` assigned in a test)."""
     sites = []
     tx = nnm.make_tx(idx)
-    sjm = idx.func(REL, "NonnegMean.sjm")
+    sjm = idx.func_x(REL, "NonnegMean.sjm")
     # translate sjm's body with symbolic parameters
     t2 = tx.child({"N": E(N), "t": E(t), "x": E(x), "self": E(S("self"))})
     t2.post = nnm._recipes
@@ -229,6 +229,12 @@ def null_mean_sites(idx):
             for tg in st.targets:
                 t2._assign(tg, v)
             continue
+        if isinstance(st, ast.If):  # (an expanded helper with two exits: if-converted)
+            try:
+                if t2.block([st]) is None:
+                    continue
+            except symx.Unsupported:
+                pass
         raise AnalysisError(f"sjm: statement {type(st).__name__} outside the dialect")
     if not isinstance(ret, T) or len(ret.items) != 4:
         raise AnalysisError("sjm does not return a 4-tuple")
@@ -236,7 +242,7 @@ def null_mean_sites(idx):
     # any other method that recomputes a null mean itself: a local whose value is selected by np.isfinite(N)
     # and built from the exclusive running sum of the sample (today: agrapa's adjusted null mean)
     for mname in nnm.registry(idx)["estim"] + nnm.registry(idx)["bet"]:
-        fd = idx.func(REL, f"NonnegMean.{mname}")
+        fd = idx.func_x(REL, f"NonnegMean.{mname}")
         t3 = nnm.make_tx(idx)
         t3.skip_calls = True
         for st in nnm.flatten(fd.body):
